@@ -254,7 +254,8 @@ def programs_C06(rng, tier):
     pre = [("assign", iv, "=", reg("RsV")), decl("uint32_t", "v", reg("RtV"))]
     v = var("v", "uint32_t")
     hy = [lambda: ("post", "i", "++"), lambda: ("post", "i", "--"), lambda: ("post", "v", "++", T["uint32_t"]), lambda: call("clz32", reg("RuV")),
-          lambda: call("revbit32", v), lambda: ("stmtexpr", "", T["uint32_t"], "v", ("bin", "+", v, reg("RuV")), False)]
+          lambda: call("revbit32", v), lambda: ("stmtexpr", "", T["uint32_t"], "v", ("bin", "+", v, reg("RuV")), False),
+          lambda: set_usr(("bin", "+", v, reg("RuV")))]     # ({ set_usr_field(bundle, HEX_REG_FIELD_USR_OVF, 1); v + RuV; })
     for h in hy:
         out.append(pre + [decl("uint64_t", "w", h()), wr("RddV", var("w", "uint64_t"))])                      # initialiser
         out.append(pre + [wr("RdV", ("bin", "+", h(), reg("RvV")))])                                              # assignment
@@ -269,9 +270,76 @@ def programs_C06(rng, tier):
                                        ("stmtexpr", "", (False, 32), "i", ("bin", "-", iv, one), False))), wr("ReV", ("bin", "+", iv, v))])   # both arms statement-expressions
         out.append(pre + [wr("RdV", ("tern", reg("PuV"), h(), reg("RvV")))])                                      # ?: arm
         out.append(pre + [wr("RdV", ("bin", "+", h(), call("clz32", reg("RvV")))), wr("ReV", iv)])                # two in one expression
+    out += void_call_programs()
     for p in out:
         if any(s[0] == "store" for s in p):
             p.insert(0, ("assign", ("var", "EA", (False, 32)), "=", reg("RuV")))
+    return out
+
+
+OVF, LPCFG = "HEX_REG_FIELD_USR_OVF", "HEX_REG_FIELD_USR_LPCFG"
+
+
+def set_usr(val, arg=None, field=OVF):
+    """({ set_usr_field(bundle, FIELD, arg); val; })"""
+    return ("seqexpr", "set_usr_field", ["bundle", field], [arg or ("lit", "1", 1, (True, 32))], val)
+
+
+def set_usr_stmt(arg, field=OVF):
+    return ("vcall", "set_usr_field", ["bundle", field], [arg])
+
+
+def void_call_programs():
+    """void sub-routine call statements and call statement-expressions (the saturation pattern of the shipped
+    instructions: `RdV = (fits) ? x : ({ set_usr_field(bundle, HEX_REG_FIELD_USR_OVF, 1); (x < 0) ? MIN : MAX; })`)"""
+    out = []
+    L = lambda k: ("lit", str(k), k, (True, 32))
+    LL = lambda txt, k: ("lit", txt, k, (True, 64))
+    iv = ("var", "i", (False, 32))
+    i64 = T["int64_t"]
+    s, t, u = reg("RsV"), reg("RtV"), reg("RuV")
+    x = ("bin", "+", ("cast", "int64_t", i64, s), ("cast", "int64_t", i64, t))          # the exact sum
+    fits = ("cmp", "==", x, ("cast", "int64_t", i64, ("cast", "int32_t", T["int32_t"], x)))
+    sat = ("tern", ("cmp", "<", x, L(0)), ("un", "-", LL("0x80000000LL", 0x80000000)), LL("0x7fffffffLL", 0x7fffffff))
+    # --- statements
+    out.append([set_usr_stmt(L(1))])
+    out.append([wr("RdV", s), set_usr_stmt(t), wr("ReV", u)])                                             # in order between other effects
+    out.append([set_usr_stmt(L(1), LPCFG), set_usr_stmt(s), set_usr_stmt(t)])                             # last write wins, two fields
+    out.append([("if", ("cmp", ">", s, L(0)), [set_usr_stmt(L(1)), wr("RdV", L(1))], [wr("RdV", L(2)), set_usr_stmt(t, LPCFG)])])
+    out.append([("if", reg("PuV"), [set_usr_stmt(s)], None), wr("RdV", t)])
+    out.append([("for", "i", L(3), [set_usr_stmt(iv, LPCFG), wr("RxV", ("bin", "+", reg("RxV"), iv))])])  # loop body
+    out.append([("for", "i", L(4), [("if", ("cmp", "==", iv, L(2)), [set_usr_stmt(("bin", "+", s, iv))], None)])])
+    out.append([set_usr_stmt(("cast", "uint8_t", T["uint8_t"], s))])                                      # argument conversions
+    out.append([set_usr_stmt(reg("RssV"))])
+    out.append([set_usr_stmt(("tern", reg("PuV"), L(1), L(0)))])
+    out.append([("vcall", "trap", [], [L(0), ("imm", "uiV", (False, 32))]), wr("RdV", s)])               # trap(0, uiV)
+    # --- statement-expressions
+    out.append([wr("RdV", set_usr(("bin", "+", s, L(1))))])                                               # bare
+    out.append([wr("RdV", ("tern", fits, x, set_usr(sat)))])                                              # the saturation pattern (else arm)
+    out.append([wr("RdV", ("tern", ("cmp", "<", s, L(0)), set_usr(("un", "-", s)), s))])                  # then arm
+    out.append([wr("RdV", ("tern", reg("PuV"), set_usr(s, L(1)), set_usr(t, L(2))))])                     # both arms, same field
+    out.append([wr("RdV", ("tern", reg("PuV"), set_usr(s, L(1)), set_usr(t, L(2), LPCFG)))])              # both arms, two fields
+    out.append([wr("RdV", set_usr(("tern", reg("PuV"), s, set_usr(t, L(2), LPCFG))))])                    # nested inside the value
+    out.append([wr("RdV", set_usr(("tern", ("cmp", "<", s, L(0)), ("tern", ("cmp", ">", t, L(3)), L(1), L(2)), L(7))))])   # nested ?: in the value
+    out.append([wr("RdV", ("bin", "+", set_usr(s, L(1)), set_usr(t, L(2), LPCFG)))])                      # two in one expression
+    out.append([wr("RdV", ("bin", "+", set_usr(s, s), set_usr(t, t)))])                                   # two writes of one field, in order
+    out.append([("if", s, [wr("RdV", set_usr(t))], [wr("RdV", L(2))])])                                   # inside an if arm
+    out.append([("if", set_usr(s), [wr("RdV", L(1))], [wr("RdV", L(2))])])                                # as a condition
+    out.append([("for", "i", L(3), [wr("RxV", ("bin", "+", reg("RxV"), set_usr(s, iv)))])])               # in a loop body
+    out.append([("for", "i", L(3), [wr("RxV", ("tern", ("cmp", "==", iv, L(1)), set_usr(s, iv), reg("RxV")))])])
+    out.append([wr("RdV", set_usr(("bin", "+", t, call("clz32", u)), call("clz32", s)))])                 # calls inside argument and value
+    out.append([("assign", iv, "=", s), wr("RdV", set_usr(("post", "i", "++"))), wr("ReV", iv)])          # postfix as the value
+    out.append([("assign", iv, "=", s), wr("RdV", set_usr(t, ("post", "i", "++"))), wr("ReV", iv)])       # postfix as the argument
+    out.append([("assign", iv, "=", s), set_usr_stmt(("post", "i", "++")), wr("ReV", iv)])                # postfix argument of the statement form
+    out.append([wr("RdV", ("tern", reg("PuV"), ("tern", reg("PvV"), set_usr(s), u), t))])                 # arm of an inner ?: (guarded by the inner condition only)
+    out.append([wr("RddV", ("tern", reg("PuV"), reg("RssV"), set_usr(t)))])                               # arms of different types
+    out.append([wr("RdV", ("cast", "int8_t", T["int8_t"], set_usr(s)))])
+    out.append([decl("int32_t", "w", set_usr(s)), wr("RdV", var("w", "int32_t"))])
+    out.append([("jump", set_usr(s))])
+    zero, one = L(0), L(1)
+    for cond in (zero, one, ("cmp", "<", zero, one)):                                                     # dead arms
+        out.append([wr("RdV", ("bin", "+", ("tern", cond, set_usr(s), t), call("clz32", u)))])
+        out.append([wr("RdV", ("tern", cond, t, set_usr(s))), wr("ReV", set_usr(u, L(2)))])
     return out
 
 
@@ -538,7 +606,7 @@ def _detuple(x):
     if isinstance(x, list):
         y = [_detuple(v) for v in x]
         if y and isinstance(y[0], str) and y[0] in ("reg", "imm", "lit", "var", "cast", "un", "bin", "shift", "cmp", "log", "not", "tern", "macro",
-                                                       "call", "post", "stmtexpr", "load", "decl", "assign", "store", "if", "for", "jump", "raw",
+                                                       "call", "post", "stmtexpr", "load", "decl", "assign", "store", "if", "for", "jump", "raw", "seqexpr", "vcall", "chain", "ret",
                                                        "exprstmt", "block", "andcmp", "intand"):
             # argument lists and statement lists stay lists
             return tuple(v if not (isinstance(v, tuple) and False) else v for v in y)
